@@ -558,6 +558,20 @@ func (ex *Ex) typeFacts(asserts []*T) ([]*T, []string) {
 			}
 		}
 	}
+	// T13: an interface value whose dynamic type is a pointer type holds a non-nil pointer
+	anyPtr := false
+	for _, n := range names {
+		if t := byConst[n]; t != nil {
+			if _, ok := t.Underlying().(*types.Pointer); ok {
+				facts = append(facts, App("ptrT", SBool, App(n, SInt)))
+				anyPtr = true
+			}
+		}
+	}
+	if anyPtr {
+		e := Var("e$t13", SIface)
+		facts = append(facts, Forall([]*T{e}, Implies(App("ptrT", SBool, Dyn(e)), Not(Eq(ValOf(e), NilRef))), []*T{ValOf(e)}))
+	}
 	for _, n := range names {
 		if id, ok := w.extraTypeConsts[n]; ok {
 			defs = append(defs, fmt.Sprintf("(define-fun %s () Int %d)", n, id))
